@@ -522,22 +522,31 @@ impl<const N: usize> SlotManager<N> {
             return Ok(None);
         }
 
-        // Now check the "other" items to see if they need remediation
+        // Now check the "other" items to see if they need remediation.
+        // Abort every stale in-progress slot before erasing anything: if power is lost in
+        // between, no erase may have exposed a stale in-progress header as the newest one.
+        for (i, hdr) in indexed_headers(&headers) {
+            if i == newest.0 || i == second_newest.0 {
+                continue;
+            }
+
+            if total_status(hdr) == TotalStatus::AppWriteInProgress {
+                let mut slot = self.open(i);
+                slot.mark_ext_status_aborted(flash).await?;
+            }
+        }
         for (i, hdr) in indexed_headers(&headers) {
             if i == newest.0 || i == second_newest.0 {
                 continue;
             }
 
             match total_status(hdr) {
-                TotalStatus::AppWriteInProgress => {
-                    let mut slot = self.open(i);
-                    slot.mark_ext_status_aborted(flash).await?;
-                }
                 TotalStatus::BootloadWriteInProgress | TotalStatus::InvalidNeedsErase => {
                     let mut slot = self.open(i);
                     slot.clear(flash).await?;
                 }
-                TotalStatus::BlankSlot
+                TotalStatus::AppWriteInProgress
+                | TotalStatus::BlankSlot
                 | TotalStatus::AppWriteAborted
                 | TotalStatus::FirstBootPendingAck
                 | TotalStatus::ConfirmedImage
